@@ -20,3 +20,5 @@ struct RunOutcome {
 RunOutcome run_check(const std::string &prop, const Plan &P, int tier);
 bool check_known(const std::string &prop);
 extern const char *all_checks[];
+// progress hook (shrinker child): called before each crash image / altered image is evaluated
+extern void (*g_progress)(int f_op, int f_w, int64_t f_b, int64_t f_k, const char *alter);
